@@ -303,3 +303,312 @@ def comparison_only(fn, params):
             if any(a.get("k") in ("copy", "move") and a["pl"]["l"] in tainted for a in t["args"]) and \
                     not re.search(r"cmp::(max|min|Ord::max|Ord::min)$|Ord>::(max|min)$", callee_skey(t) or ""):
                 raise NotInClass("an argument is passed to %s" % callee_skey(t))
+
+
+# --------------------------------------------------------------------------------------------------
+# Piecewise translations:  f(x) = x + c_k  (wrapping) on each piece, c_k chosen by comparisons of x with constants.
+#
+# Class (checked by `translation_class`): every local is of kind
+#     X  the argument itself, copied or cast without narrowing,
+#     P  piecewise constant in x (constants, results of comparisons of an X with a constant, arithmetic among P values, and any
+#        value chosen by control flow that depends on such comparisons),
+#     L  an X or L plus/minus a P (wrapping or checked), or a cast of an L.
+# Comparisons may involve an X and a constant only.  On an elementary interval of the partition of the argument's domain by the
+# comparison constants (in both signed and unsigned reading) every comparison has one outcome, so every P is constant there and the
+# result, if L, is x + c for one c: evaluating one point per interval tabulates the function exactly.
+
+INT_TYPES = {"u8": (8, False), "u16": (16, False), "u32": (32, False), "u64": (64, False), "usize": (64, False), "u128": (128, False),
+             "i8": (8, True), "i16": (16, True), "i32": (32, True), "i64": (64, True), "isize": (64, True), "i128": (128, True), "bool": (1, False)}
+
+
+def wrap(v, ty):
+    bits, signed = INT_TYPES[ty]
+    v &= (1 << bits) - 1
+    if signed and v >> (bits - 1):
+        v -= 1 << bits
+    return v
+
+
+def _op_ty(fn, o):
+    if o.get("k") == "const":
+        return (o["c"].get("ty") or "").replace("const ", "")
+    return fn.locals[o["pl"]["l"]]
+
+
+WRAPPING = re.compile(r"^core::num::(?:<impl \w+>::)?(wrapping_add|wrapping_sub)$")
+
+
+def translation_class(fn):
+    if fn.argc != 1 or fn.locals[1] not in INT_TYPES:
+        raise NotInClass("not a unary integer function")
+    kind = {1: "X"}
+
+    def k_of(o):
+        if o.get("k") == "const":
+            return "P"
+        if o["pl"]["p"]:
+            base = kind.get(o["pl"]["l"])
+            return base          # field 0 of a checked-arithmetic pair has the pair's kind
+        return kind.get(o["pl"]["l"])
+
+    def join(a, b):
+        if a is None:
+            return b
+        if b is None or a == b:
+            return a
+        if {a, b} == {"X", "L"}:
+            return "L"
+        raise NotInClass("a local holds both a piecewise constant and an argument-dependent value")
+
+    changed = True
+    rounds = 0
+    while changed:
+        changed = False
+        rounds += 1
+        if rounds > 50:
+            raise NotInClass("kind inference does not converge")
+        for b in fn.blocks:
+            for st in b.st:
+                if st["s"] != "=":
+                    continue
+                if st["lhs"]["p"]:
+                    raise NotInClass("projected store")
+                rv, l = st["rv"], st["lhs"]["l"]
+                new = None
+                if rv["r"] == "use":
+                    new = k_of(rv["a"])
+                elif rv["r"] == "cast":
+                    ka = k_of(rv["a"])
+                    if ka in ("X", "L"):
+                        sb, db = INT_TYPES.get(_op_ty(fn, rv["a"]), (0, 0))[0], INT_TYPES.get(fn.locals[l], (0, 0))[0]
+                        if not sb or not db or db < sb:
+                            raise NotInClass("the argument is narrowed by a cast")
+                        if ka == "X" and db > sb:
+                            ka = "X"
+                    new = ka
+                elif rv["r"] == "bin":
+                    ka, kb = k_of(rv["a"]), k_of(rv["b"])
+                    if ka is None or kb is None:
+                        continue
+                    op = rv["op"]
+                    if op in ("Lt", "Le", "Gt", "Ge", "Eq", "Ne"):
+                        if {ka, kb} == {"P"}:
+                            new = "P"
+                        elif (ka == "X" and rv["b"].get("k") == "const") or (kb == "X" and rv["a"].get("k") == "const"):
+                            new = "P"
+                        else:
+                            raise NotInClass("a comparison involves a translated value or two non-constants")
+                    elif op.rstrip("WithOverflow").rstrip("Unchecked") in ("Add", "Sub") or op in ("Add", "Sub", "AddWithOverflow", "SubWithOverflow", "AddUnchecked", "SubUnchecked"):
+                        if {ka, kb} == {"P"}:
+                            new = "P"
+                        elif ka in ("X", "L") and kb == "P":
+                            new = "L"
+                        elif kb in ("X", "L") and ka == "P" and op.startswith("Add"):
+                            new = "L"
+                        else:
+                            raise NotInClass("`%s` of two argument-dependent values" % op)
+                    else:
+                        if {ka, kb} == {"P"}:
+                            new = "P"
+                        else:
+                            raise NotInClass("the argument is used in `%s`" % op)
+                elif rv["r"] == "un":
+                    ka = k_of(rv["a"])
+                    if ka == "P":
+                        new = "P"
+                    elif ka is not None:
+                        raise NotInClass("the argument is used in unary `%s`" % rv["op"])
+                elif rv["r"] == "agg" and not rv.get("ops"):
+                    new = "P"
+                else:
+                    raise NotInClass(rv["r"])
+                if new is not None:
+                    j = join(kind.get(l), new)
+                    if j != kind.get(l):
+                        kind[l] = j
+                        changed = True
+            t = b.term
+            if t["t"] == "call":
+                ck = callee_skey(t) or ""
+                m = WRAPPING.match(ck)
+                if not m:
+                    raise NotInClass("call to %s" % ck)
+                if t["dest"]["p"]:
+                    raise NotInClass("projected call destination")
+                ka, kb = k_of(t["args"][0]), k_of(t["args"][1])
+                if ka is None or kb is None:
+                    continue
+                if {ka, kb} == {"P"}:
+                    new = "P"
+                elif ka in ("X", "L") and kb == "P":
+                    new = "L"
+                elif kb in ("X", "L") and ka == "P" and m.group(1) == "wrapping_add":
+                    new = "L"
+                else:
+                    raise NotInClass("%s of two argument-dependent values" % m.group(1))
+                j = join(kind.get(t["dest"]["l"]), new)
+                if j != kind.get(t["dest"]["l"]):
+                    kind[t["dest"]["l"]] = j
+                    changed = True
+            elif t["t"] == "switch":
+                kd = k_of(t["discr"])
+                if kd in ("X", "L"):
+                    raise NotInClass("a switch on the argument itself")
+            elif t["t"] not in ("goto", "return", "assert", "drop", "unreachable"):
+                raise NotInClass(t["t"])
+    if kind.get(0) is None:
+        raise NotInClass("the result's kind could not be inferred")
+    return kind
+
+
+def evaluate_typed(fn, x, fuel=300):
+    """Type-aware interpretation (signed and unsigned integers of every width) of the translation class."""
+    env = {1: x}
+    bi = 0
+
+    def val(o):
+        if o.get("k") == "const":
+            v = o["c"].get("v")
+            if isinstance(v, bool):
+                return int(v)
+            if isinstance(v, int):
+                return v
+            raise NotInClass("constant %r" % (v,))
+        v = env.get(o["pl"]["l"])
+        if v is None:
+            raise NotInClass("read of an undefined local")
+        for e in o["pl"]["p"]:
+            if isinstance(e, dict) and "f" in e and isinstance(v, tuple):
+                v = v[int(e["f"])]
+            else:
+                raise NotInClass("projection")
+        return v
+
+    while fuel > 0:
+        fuel -= 1
+        b = fn.blocks[bi]
+        for st in b.st:
+            if st["s"] != "=":
+                continue
+            l, rv = st["lhs"]["l"], st["rv"]
+            ty = fn.locals[l]
+            if rv["r"] == "use":
+                env[l] = val(rv["a"])
+            elif rv["r"] == "cast":
+                if ty not in INT_TYPES:
+                    raise NotInClass("cast to %s" % ty)
+                env[l] = wrap(val(rv["a"]), ty)
+            elif rv["r"] == "bin":
+                a, c, op = val(rv["a"]), val(rv["b"]), rv["op"]
+                if op in ("Lt", "Le", "Gt", "Ge", "Eq", "Ne"):
+                    env[l] = int({"Lt": a < c, "Le": a <= c, "Gt": a > c, "Ge": a >= c, "Eq": a == c, "Ne": a != c}[op])
+                elif op in ("Add", "Sub", "AddUnchecked", "SubUnchecked", "AddWithOverflow", "SubWithOverflow"):
+                    oty = _op_ty(fn, rv["a"])
+                    if oty not in INT_TYPES:
+                        raise NotInClass("arithmetic on %s" % oty)
+                    full = a + c if op.startswith("Add") else a - c
+                    w_ = wrap(full, oty)
+                    if op.endswith("WithOverflow"):
+                        env[l] = (w_, int(w_ != full))
+                    else:
+                        if w_ != full:
+                            return ("panic", "overflow")
+                        env[l] = w_
+                elif op in ("BitAnd", "BitOr", "BitXor"):
+                    env[l] = {"BitAnd": a & c, "BitOr": a | c, "BitXor": a ^ c}[op]
+                else:
+                    raise NotInClass(op)
+            elif rv["r"] == "un" and rv["op"] == "Not":
+                a = val(rv["a"])
+                env[l] = (1 - a) if ty == "bool" else wrap(~a, ty)
+            elif rv["r"] == "agg" and not rv.get("ops"):
+                env[l] = 0
+            else:
+                raise NotInClass(rv["r"])
+        t = b.term
+        k = t["t"]
+        if k == "return":
+            return env.get(0)
+        if k == "goto":
+            bi = t["to"]
+        elif k == "switch":
+            d = val(t["discr"])
+            nxt = t["otherwise"]
+            for v, tgt in t["arms"]:
+                if v == d:
+                    nxt = tgt
+                    break
+            bi = nxt
+        elif k == "assert":
+            if val(t["cond"]) != int(t["expected"]):
+                return ("panic", t.get("msg", "")[:40])
+            bi = t["to"]
+        elif k == "call":
+            m = WRAPPING.match(callee_skey(t) or "")
+            if not m:
+                raise NotInClass("call")
+            a = [val(o) for o in t["args"]]
+            dty = fn.locals[t["dest"]["l"]]
+            env[t["dest"]["l"]] = wrap(a[0] + a[1] if m.group(1) == "wrapping_add" else a[0] - a[1], dty)
+            bi = t["to"]
+        elif k == "drop":
+            bi = t["to"]
+        else:
+            raise NotInClass(k)
+    raise NotInClass("does not terminate within the step bound")
+
+
+def tabulate_translation(fn):
+    """[(lo, hi, c)]: for lo <= x <= hi (x in the argument type's own range, signed types signed), f(x) == wrap(x + c) in the result
+    type; or (lo, hi, ('const', v)) where the result does not depend on x."""
+    kind = translation_class(fn)
+    aty, rty = fn.locals[1], fn.locals[0]
+    if rty not in INT_TYPES:
+        raise NotInClass("result type %s" % rty)
+    bits, signed = INT_TYPES[aty]
+    dlo, dhi = (-(1 << (bits - 1)), (1 << (bits - 1)) - 1) if signed else (0, (1 << bits) - 1)
+    pts = {dlo, dhi + 1, 0, 1 << (bits - 1)}
+    for c in _all_int_consts(fn):
+        for d in (c, c + 1, c - (1 << bits), c + 1 - (1 << bits), c + (1 << bits), c + 1 + (1 << bits)):
+            pts.add(d)
+    pts = sorted(p for p in pts if dlo <= p <= dhi + 1)
+    out = []
+    for lo, nxt in zip(pts, pts[1:]):
+        hi = nxt - 1
+        v = evaluate_typed(fn, lo)
+        if isinstance(v, tuple):
+            piece = ("panic",)
+        elif kind[0] == "P":
+            piece = ("const", v)
+        else:
+            piece = wrap(v - lo, rty) if INT_TYPES[rty][0] >= bits else None
+            if piece is None:
+                raise NotInClass("result narrower than the argument")
+            v2 = evaluate_typed(fn, hi)
+            if isinstance(v2, tuple) or wrap(v2 - hi, rty) != piece:
+                raise NotInClass("internal: the function is not a translation on [%d, %d]" % (lo, hi))
+        if out and out[-1][2] == piece and out[-1][1] + 1 == lo:
+            out[-1] = (out[-1][0], hi, piece)
+        else:
+            out.append((lo, hi, piece))
+    return out
+
+
+def _all_int_consts(fn):
+    out = set()
+
+    def walk(o):
+        if isinstance(o, dict):
+            if o.get("k") == "const":
+                v = o["c"].get("v")
+                if isinstance(v, int) and not isinstance(v, bool):
+                    out.add(v)
+            for x in o.values():
+                walk(x)
+        elif isinstance(o, list):
+            for x in o:
+                walk(x)
+    for b in fn.blocks:
+        walk(b.st)
+        walk(b.term)
+    return out
